@@ -412,7 +412,7 @@ def check_case(ctx, case):
 
 
 def shard(ctx):
-    drive(ctx, case_strategy(), check_case, ctx.share(600, 40000))
+    drive(ctx, case_strategy(), check_case, ctx.share(1200, 40000))
 
 
 def replay(ctx, case):
